@@ -66,10 +66,16 @@ def run(ctx):
              "enter_direct re-seats pc / entry_address / tr after link()")
     ctx.rule("C04.d", "the mutator-calling functions reachable from execute_loop are exactly "
              "delete, renum, new_; Program.direct_address is written only by Program::clear/link")
+    ctx.rule("C04.e", "a direct-mode statement cannot add to the stored program's code or data: "
+             "Link::append refuses a fragment carrying DATA once the direct part has begun "
+             "(direct_set) BEFORE it appends anything - the ILLEGAL DIRECT exit is not reachable "
+             "from any appending call; the direct part is dropped before the next direct line "
+             "(Program::clear/compile drain from direct_address)")
     rule_a(ctx, cr)
     rule_b(ctx, cr)
     rule_c(ctx, cr)
     rule_d(ctx, cr)
+    rule_e(ctx, cr)
 
 
 def rule_a(ctx, cr):
@@ -390,3 +396,27 @@ def rule_d(ctx, cr):
     ctx.check(len(dr) == 1 and "direct_address" in cg.describe(dr[0].args[1]), "C04.d",
               "codegen/drain-from-direct_address", cg.span,
               "a direct line only truncates the code at direct_address")
+
+
+def rule_e(ctx, cr):
+    f = cr.need_fn("mach::link::Link::append")
+    ctx.touch(f)
+    ill = [b for b, code, _s in f.error_codes() if code == "IllegalDirect"]
+    muts = [c for c in f.calls() if re.search(r"(Stack<T>::append|BTreeMap::<K, V, A>::insert|"
+                                              r"HashMap::<K, V, S, A>::insert|Vec::<T, A>::push)$",
+                                              c.name)]
+    ctx.floor("C04.e", "appending calls in Link::append", len(muts), 3)
+    ok = len(ill) == 1 and not any(f.can_reach(c.bb, ill[0]) for c in muts)
+    ctx.check(ok, "C04.e", "Link::append/direct-data-rejected-first", f.span,
+              "ILLEGAL DIRECT is raised before anything is appended",
+              "Link::append raises ILLEGAL DIRECT %s: the rejected direct DATA statement has "
+              "already been appended to the program's data segment, so a later READ delivers a "
+              "constant that no listed line contains"
+              % ("after appending" if ill else "nowhere (direct DATA is accepted)"))
+    guard = False
+    for b in ill:
+        for c in f.conds_at(b):
+            if c[0] == "eq" and "direct_set" in str(c[1]) and c[2] is True:
+                guard = True
+    ctx.check(guard, "C04.e", "Link::append/direct-data-guard", f.span,
+              "the rejection is under `direct_set`")
